@@ -166,6 +166,36 @@ fn send_unroutable_raw(raw_fd: libc::c_int, port: u16, bytes: &[u8]) -> bool {
     n == pkt.len() as isize
 }
 
+// ---------------------------------------------------------------------------- watchdog
+// The rig calls Server::process_events on the harness's own thread. A worker that never returns (a loop that spins on an
+// error, a blocking call) would hang the harness: the watchdog notices that one call has lasted longer than HANG_MS, appends
+// a `pumped` event with wedged = true (and hung = true) to the trace, prints the summary line and ends the process normally,
+// so that the trace is decided by TLC like any other ("wedged").
+static PUMP_STARTED_MS: std::sync::atomic::AtomicU64 = std::sync::atomic::AtomicU64::new(0);
+const HANG_MS: u64 = 25_000;
+
+fn epoch_ms() -> u64 { SystemTime::now().duration_since(UNIX_EPOCH).unwrap().as_millis() as u64 }
+fn call_begins() { PUMP_STARTED_MS.store(epoch_ms(), Ordering::SeqCst); }
+fn call_ended() { PUMP_STARTED_MS.store(0, Ordering::SeqCst); }
+
+pub fn start_watchdog(trace_path: &str) {
+    let path = trace_path.to_string();
+    std::thread::spawn(move || loop {
+        std::thread::sleep(std::time::Duration::from_millis(500));
+        let t0 = PUMP_STARTED_MS.load(Ordering::SeqCst);
+        if t0 != 0 && epoch_ms() > t0 + HANG_MS {
+            use std::io::Write;
+            if let Ok(mut f) = std::fs::OpenOptions::new().append(true).open(&path) {
+                let _ = writeln!(f, "{}", json!({"ev": "pumped", "panic": false, "panic_msg": "", "wedged": true, "hung": true, "unconsumed": 0,
+                                              "note": format!("Server::process_events did not return within {} ms", HANG_MS)}));
+                let _ = writeln!(f, "{}", json!({"ev": "round_end"}));
+            }
+            println!("{}", json!({"rec": "summary", "events": 0, "rounds": 0, "replies": 0, "replayed": 0, "dropped_rounds": 0, "hung": true}));
+            std::process::exit(0);
+        }
+    });
+}
+
 fn hc_connect_one(port: u16, aborted: bool, streams: &Rc<RefCell<Vec<std::net::TcpStream>>>) {
     if let Ok(s) = std::net::TcpStream::connect(("127.0.0.1", port)) {
         if aborted {
@@ -294,7 +324,10 @@ impl Rig {
             let before = *self.recv_count.borrow();
             let server = match self.server.as_mut() { Some(s) => s, None => { panic = Some("server gone".to_string()); break; } };
             let events = &mut self.events;
-            if let Err(p) = guarded(|| server.process_events(events)) { panic = Some(p); break; }
+            call_begins();
+            let r = guarded(|| server.process_events(events));
+            call_ended();
+            if let Err(p) = r { panic = Some(p); break; }
             let after = *self.recv_count.borrow();
             rounds += 1;
             if after >= expect { break; }
@@ -349,7 +382,10 @@ impl Rig {
             let before = self.hooks.borrow().len();
             let server = self.server.as_mut()?;
             let events = &mut self.events;
-            if let Err(p) = guarded(|| server.process_events(events)) { return Some(p); }
+            call_begins();
+            let r = guarded(|| server.process_events(events));
+            call_ended();
+            if let Err(p) = r { return Some(p); }
             let new: usize = self.hooks.borrow()[before..].iter().filter(|e| e.name != "poll" && e.name != "pe_return").count();
             if new == 0 {
                 // connects planned at hook points that never came up are made now, then one more pass
